@@ -27,8 +27,8 @@ Import ListNotations.
 Open Scope Z_scope.
 
 (* the state only moves opened -> halfClosed -> closed, opened -> localHalfClosed -> closed, or opened -> closed *)
-Theorem C10_monotone : forall cb0 inb nc scr ups sched sched',
-  let s := run sched (init cb0 inb nc scr ups) in let s' := run sched' s in
+Theorem C10_monotone : forall cb0 inb nc scr ups sy sched sched',
+  let s := run sched (init_sy cb0 inb nc scr ups sy) in let s' := run sched' s in
   (st s = c_streamOpened \/ st s = c_streamHalfClosed \/ st s = v_streamLocalHalfClosed \/ st s = c_streamClosed) /\
   (st s = c_streamClosed -> st s' = c_streamClosed) /\
   (st s = c_streamHalfClosed -> st s' = c_streamHalfClosed \/ st s' = c_streamClosed) /\
@@ -39,8 +39,8 @@ Print Assumptions C10_monotone.
 (* never more than one close report per end (nlocal / nremote count the OnLocalClose / OnRemoteClose call
    sites; the callbacks themselves are invoked there iff callbacks are installed); none while open; a
    close element is sent only after the OnLocalClose site *)
-Theorem C10_callbacks_at_most_once : forall cb0 inb nc scr ups sched,
-  let s := run sched (init cb0 inb nc scr ups) in
+Theorem C10_callbacks_at_most_once : forall cb0 inb nc scr ups sy sched,
+  let s := run sched (init_sy cb0 inb nc scr ups sy) in
   0 <= nlocal s /\ 0 <= nremote s /\ nlocal s + nremote s <= 1 /\
   (st s = c_streamOpened -> nlocal s + nremote s = 0) /\ ncl (out s) <= nlocal s.
 Proof. exact callbacks_at_most_once. Qed.
@@ -48,8 +48,8 @@ Print Assumptions C10_callbacks_at_most_once.
 
 (* once a Close() call of another goroutine has returned the state is no longer opened: Flush (hence Write)
    returns ErrStreamClosed and a read never blocks again (buffered data, then ErrEndOfStream) *)
-Theorem C10_final_flush : forall cb0 inb nc scr ups sched i,
-  let s := run sched (init cb0 inb nc scr ups) in
+Theorem C10_final_flush : forall cb0 inb nc scr ups sy sched i,
+  let s := run sched (init_sy cb0 inb nc scr ups sy) in
   nth_error (clos s) i = Some KRet ->
   st s <> c_streamOpened /\ flush_res s = RErrStreamClosed /\ read_res s <> RBlocked.
 Proof. exact final_flush. Qed.
@@ -58,8 +58,8 @@ Print Assumptions C10_final_flush.
 (* readers blocked in readMore are woken: once the state has left `opened` (by the peer's notification, by
    close(), or by the local half-close of a Close() issued while a callback runs — that one since 24acf5f)
    closeNotifyCh is closed as soon as no thread stands between its state transition and its report *)
-Theorem C10_wake : forall cb0 inb nc scr ups sched,
-  let s := run sched (init cb0 inb nc scr ups) in
+Theorem C10_wake : forall cb0 inb nc scr ups sy sched,
+  let s := run sched (init_sy cb0 inb nc scr ups sy) in
   st s <> c_streamOpened ->
   epc s <> EHalfN -> cz c_pendcb (clos s) = 0 -> cz (gl c_pendcb) (gors s) = 0 ->
   cnotify s = true.
@@ -68,8 +68,8 @@ Print Assumptions C10_wake.
 
 (* peer side: once a close notification has been taken from the inbox and its CAS executed, Flush fails and
    reads return the buffered data and then end-of-stream *)
-Theorem C10_peer : forall cb0 inb nc scr ups sched,
-  let s := run sched (init cb0 inb nc scr ups) in
+Theorem C10_peer : forall cb0 inb nc scr ups sy sched,
+  let s := run sched (init_sy cb0 inb nc scr ups sy) in
   ncl (processed s) > 0 -> epc s <> EHalf ->
   st s <> c_streamOpened /\ flush_res s = RErrStreamClosed /\ read_res s <> RBlocked /\
   (recv s ++ concat (pending s) = [] -> read_res s = REndOfStream).
@@ -77,16 +77,16 @@ Proof. exact peer. Qed.
 Print Assumptions C10_peer.
 
 (* ---------- the full statement: now a theorem ---------- *)
-Theorem C10_full : forall cb0 inb nc scr ups sched,
+Theorem C10_full : forall cb0 inb nc scr ups sy sched,
   cb_stable cb0 sched ->
-  let s := run sched (init cb0 inb nc scr ups) in quiesc s -> close_returned s -> closed_ok s.
+  let s := run sched (init_sy cb0 inb nc scr ups sy) in quiesc s -> close_returned s -> closed_ok s.
 Proof. exact full. Qed.
 Print Assumptions C10_full.
 
 (* nothing is left behind: at closed quiescence pendingData and recvBuf are empty (a goroutine spawned after
    close()'s Wait finds nothing to move into the recycled recvBuf) and a read returns end-of-stream at once *)
-Theorem C10_no_residue : forall cb0 inb nc scr ups sched,
-  let s := run sched (init cb0 inb nc scr ups) in
+Theorem C10_no_residue : forall cb0 inb nc scr ups sy sched,
+  let s := run sched (init_sy cb0 inb nc scr ups sy) in
   st s = c_streamClosed ->
   (forall i g, nth_error (gors s) i = Some g -> g = GExit) ->
   (forall i c, nth_error (clos s) i = Some c -> c = KRet \/ c = KStart) ->
@@ -106,14 +106,14 @@ Proof. exact propagates. Qed.
 Print Assumptions C10_propagates.
 
 (* ---------- the hypothesis cb_stable is forced ---------- *)
-Definition C10_full_any_setcallbacks : Prop := forall cb0 inb nc scr ups sched,
-  let s := run sched (init cb0 inb nc scr ups) in quiesc s -> close_returned s -> closed_ok s.
+Definition C10_full_any_setcallbacks : Prop := forall cb0 inb nc scr ups sy sched,
+  let s := run sched (init_sy cb0 inb nc scr ups sy) in quiesc s -> close_returned s -> closed_ok s.
 (* Close() reads "no callbacks"; SetCallbacks installs them and takes the flag; Close() reads the flag = 1,
    half-closes and returns; the goroutine finds callbackCloseState = 0 and never closes *)
 Theorem C10_setcallbacks_race_refuted : ~ C10_full_any_setcallbacks.
 Proof.
   intros H.
-  specialize (H false [] 1%nat [] [] ([WClo 0; WSet; WSet; WClo 0; WClo 0; WSet; WSet] ++ repeat (WGor 0) 8)).
+  specialize (H false [] 1%nat [] [] [] ([WClo 0; WSet; WSet; WClo 0; WClo 0; WSet; WSet] ++ repeat (WGor 0) 8)).
   match type of H with let s := ?r in _ => set (s := r) in H end. cbv zeta in H.
   assert (Hq : quiesc s).
   { vm_compute. repeat split; auto.
@@ -127,7 +127,7 @@ Print Assumptions C10_setcallbacks_race_refuted.
 (* ---------- regression examples: the former refutation witnesses now end well ---------- *)
 (* (1) one message, OnData consumes it and calls Close() (formerly C10_refuted) *)
 Example C10_regress_close_inside_OnData :
-  let s := run (repeat WEv 6 ++ repeat (WGor 0) 40) (init true [EData [1]] 0 [(1%nat, true)] []) in
+  let s := run (repeat WEv 6 ++ repeat (WGor 0) 40) (init true [EData [1]] 0 [(1%nat, 1%nat)] []) in
   khalf s = true /\ st s = c_streamClosed /\ intable s = false /\ nlocal s = 1 /\ nremote s = 0 /\ out s = [EClose] /\
   gors s = [GExit].
 Proof. vm_compute. repeat split. Qed.
@@ -153,3 +153,33 @@ Proof.
   - intros [|[|i]] c Hc; simpl in Hc; try discriminate. inversion Hc; auto.
   - left. exists 0%nat. reflexivity.
 Qed.
+
+(* (3) Close() called twice inside the same OnData: the second call finds the stream already locally half-closed,
+   its CAS fails and it returns; the goroutine's exit path completes the close *)
+Example C10_regress_repeated_close_inside_OnData :
+  let s := run (repeat WEv 6 ++ repeat (WGor 0) 50) (init true [EData [1]] 0 [(1%nat, 2%nat)] []) in
+  st s = c_streamClosed /\ intable s = false /\ nlocal s = 1 /\ nremote s = 0 /\ out s = [EClose] /\ gors s = [GExit].
+Proof. vm_compute. repeat split. Qed.
+(* (4) Close() inside OnData after the peer's close notification was handled while that OnData was running *)
+Example C10_regress_close_inside_OnData_after_peer_close :
+  let s := run (repeat WEv 6 ++ repeat (WGor 0) 3 ++ repeat WEv 3 ++ repeat (WGor 0) 50)
+               (init true [EData [1]; EClose] 0 [(1%nat, 1%nat)] []) in
+  st s = c_streamClosed /\ intable s = false /\ nlocal s = 0 /\ nremote s = 1 /\ out s = [] /\ gors s = [GExit].
+Proof. vm_compute. repeat split. Qed.
+
+(* Why Close() must return when its CAS in the callbackInProcess = 1 branch fails.  Variant under test by the
+   harness (scenarios "Close repeated inside the same OnData" / "Close inside OnData after the peer's close"):
+   if a failed CAS fell through to close(), then — called from inside OnData — close() would win the CAS to
+   closed and wait on asyncGoroutineWg, which the calling goroutine itself holds: it waits for itself for ever.
+   Below, the fall-through is applied by hand to the state in which the second Close() of one OnData stands at
+   that CAS; from there the (unchanged) step function never leaves wg.Wait: the stream is marked closed but
+   stays in the table, OnLocalClose is never called and the peer is never told. *)
+Definition seeded_fallthrough (s : est) : est := setg 0 (GCbClose CLd 0) s.
+Example C10_seeded_close_fallthrough_self_deadlock :
+  let s1 := run (repeat WEv 6 ++ repeat (WGor 0) 9) (init true [EData [1]] 0 [(1%nat, 2%nat)] []) in
+  nth_error (gors s1) 0 = Some (GCbClose KHalf 0) /\ st s1 = v_streamLocalHalfClosed /\
+  let s2 := run (repeat (WGor 0) 100) (seeded_fallthrough s1) in
+  nth_error (gors s2) 0 = Some (GCbClose (CWait v_streamLocalHalfClosed) 0) /\ wg s2 = 1 /\
+  st s2 = c_streamClosed /\ intable s2 = true /\ nlocal s2 = 0 /\ out s2 = [] /\
+  step s2 (WGor 0) = s2.
+Proof. vm_compute. repeat split. Qed.
